@@ -77,14 +77,44 @@ let () = register "tgs" (fun args ->
       let p = if proto = "udp" then TgUdp else TgDtls in
       let t = if ty = "c" then TgClient else TgHello in
       let s0 = tg_new_session p t (iz (int_of_string nstart)) in
+      (* step = <event>=<outs>[@<state>/<type>/<dq>/<sq>/<con_active>/<tls>]  (ids joined by '.') *)
+      let idl x = if x = "-" then [] else List.map (fun y -> iz (int_of_string y)) (String.split_on_char '.' x) in
+      let parse_snap x =
+        match String.split_on_char '/' x with
+        | [st; ty; dq; sq; ca; tl] ->
+            { sn_state = iz (int_of_string st); sn_type = iz (int_of_string ty); sn_dq = idl dq;
+              sn_sq = idl sq; sn_ca = iz (int_of_string ca); sn_tls = (tl = "1") }
+        | _ -> failwith ("bad snapshot " ^ x) in
       let parse st =
+        let (st, snap) =
+          match String.index_opt st '@' with
+          | None -> (st, None)
+          | Some j -> (String.sub st 0 j, Some (parse_snap (String.sub st (j + 1) (String.length st - j - 1)))) in
         match String.index_opt st '=' with
         | None -> failwith ("bad step " ^ st)
         | Some i ->
             let e = String.sub st 0 i and r = String.sub st (i + 1) (String.length st - i - 1) in
-            (ev_of_string e, List.map out_of_string (split ',' r)) in
-      let tr = List.map parse steps in
-      if tg_accepts o s0 tr then "ACCEPT"
+            ((ev_of_string e, List.map out_of_string (split ',' r)), snap) in
+      let trs = List.map parse steps in
+      let tr = List.map fst trs in
+      if tg_accepts_snap o s0 trs then "ACCEPT"
+      else if tg_accepts o s0 tr then begin
+        (* outputs agree, a snapshot does not: locate it *)
+        let rec go s k l =
+          match l with
+          | [] -> "REJECT snapshot ?"
+          | ((e, _), n) :: r ->
+              let (s1, _) = tg_step o s e in
+              (match n with
+               | Some x when not (tg_snap_ok s1 x) ->
+                   Printf.sprintf "REJECT snapshot step=%d ev=%s model=%d/%d/%s/%s/%d/%d" k (List.nth steps k)
+                     (zi (tg_state_num s1.ts_state)) (zi (tg_type_num s1.ts_type))
+                     (String.concat "." (List.map (fun m -> string_of_int (zi m.tm_id)) s1.ts_delayq))
+                     (String.concat "." (List.map (fun m -> string_of_int (zi m.tm_id)) s1.ts_sendq))
+                     (zi s1.ts_con_active) (if s1.ts_tls then 1 else 0)
+               | _ -> go s1 (k + 1) r) in
+        go s0 0 trs
+      end
       else begin
         (* locate the first step whose outputs differ (diagnostics only) *)
         let rec go s k tr =
